@@ -73,6 +73,9 @@ class Check:
                     hit = k
                     break
             (known_hits if hit else violations).append((f, hit))
+        if os.environ.get("VERIF_DUMP_KEYS") == "1":
+            for f in self.findings:
+                print("KEY\t%s | %s" % (f["rule"], f["key"]))
         outdir = os.path.join(VERIF, "evidence")
         os.makedirs(os.path.join(outdir, "violations"), exist_ok=True)
         lines = []
